@@ -39,6 +39,11 @@ pub struct Registry {
     pub substance_symbols: BTreeMap<String, String>,
 }
 
+/// How many aliases `canonicalize` follows. Definitions loaded one after
+/// another can redefine a unit in terms of one of its own aliases, so the
+/// chain is not followed forever.
+const MAX_ALIAS_DEPTH: usize = 64;
+
 impl Registry {
     fn lookup_exact(&self, name: &str) -> Option<Number> {
         if let Some(k) = self.base_units.get(name) {
@@ -80,7 +85,7 @@ impl Registry {
         }
     }
 
-    fn canonicalize_exact(&self, name: &str) -> Option<String> {
+    fn canonicalize_exact(&self, name: &str, depth: usize) -> Option<String> {
         if let Some(v) = self.base_unit_long_names.get(name) {
             return Some(v.clone());
         }
@@ -93,7 +98,10 @@ impl Registry {
         }
         if let Some(expr) = self.definitions.get(name) {
             if let Expr::Unit { ref name } = *expr {
-                if let Some(canonicalized) = self.canonicalize(&*name) {
+                if depth >= MAX_ALIAS_DEPTH {
+                    return Some(name.clone());
+                }
+                if let Some(canonicalized) = self.canonicalize_depth(&*name, depth + 1) {
                     return Some(canonicalized);
                 } else {
                     return Some(name.clone());
@@ -106,13 +114,13 @@ impl Registry {
         None
     }
 
-    fn canonicalize_with_prefix(&self, name: &str) -> Option<String> {
-        if let Some(v) = self.canonicalize_exact(name) {
+    fn canonicalize_with_prefix(&self, name: &str, depth: usize) -> Option<String> {
+        if let Some(v) = self.canonicalize_exact(name, depth) {
             return Some(v);
         }
         for &(ref prefix, ref value) in &self.prefixes {
             if let Some(name) = name.strip_prefix(prefix) {
-                if let Some(canonicalized) = self.canonicalize_exact(name) {
+                if let Some(canonicalized) = self.canonicalize_exact(name, depth) {
                     // A prefix only goes in front of a plain unit: if the alias
                     // expands to a unit that carries a prefix of its own, the
                     // alias is kept.
@@ -142,13 +150,17 @@ impl Registry {
     /// * `mm` -> `millimeter` (prefixes are converted to long form)
     /// * `micron` -> `micrometer` (aliases are expanded)
     pub fn canonicalize(&self, name: &str) -> Option<String> {
-        let res = self.canonicalize_with_prefix(name);
+        self.canonicalize_depth(name, 0)
+    }
+
+    fn canonicalize_depth(&self, name: &str, depth: usize) -> Option<String> {
+        let res = self.canonicalize_with_prefix(name, depth);
         if res.is_some() {
             return res;
         }
 
         if let Some(name) = name.strip_suffix('s') {
-            self.canonicalize_with_prefix(name)
+            self.canonicalize_with_prefix(name, depth)
         } else {
             None
         }
